@@ -46,7 +46,7 @@ def check_coord(ctx, out, rule="C01.coord"):
                 elif not tgt:
                     out.viol(rule, "%s|%s|LineChange.line<-unknown" % (rule, b.id), ctx.where(b, s["span"]),
                              "a LineChange's line derives from [%s], not from a new-file line number of the diff" % util.origins_text(labs, 4))
-    out.inst(rule, n, 3, samples)
+    out.inst(rule, n, 1, samples, note="every construction of a LineChange (3 on the pinned tree)")
 
 
 def check_skipfile(ctx, out, rule="C01.skipfile"):
